@@ -1090,6 +1090,18 @@ class CallGraph:
                 if q2 in fi.module.functions:
                     edges.add(fi.module.functions[q2].fq)
                 continue
+            if isinstance(n, ast.Name) and isinstance(n.ctx, ast.Load) and n.id not in params and n.id in fi.module.assigns:
+                # a module-level table that holds tucan functions (a dispatch table): using the table may call them
+                tbl = fi.module.assigns[n.id]
+                if isinstance(tbl, (ast.Tuple, ast.List, ast.Dict, ast.Set)):
+                    for x in ast.walk(tbl):
+                        if isinstance(x, (ast.Name, ast.Attribute)) and isinstance(getattr(x, "ctx", None), ast.Load):
+                            try:
+                                r = self.repo.resolve_dotted(fi.module, x)
+                            except Exception:
+                                r = None
+                            if r and r[0] == "func":
+                                edges.add(r[1].fq)
             if isinstance(n, ast.Attribute) and isinstance(n.ctx, ast.Load):
                 # reading a property of a tucan class runs its getter
                 t = lt.type_of(n.value)
